@@ -1207,6 +1207,7 @@ impl<'a> Visitor<'a, '_, Error> for JSONValidator<'a> {
     let initial_error_count = self.errors.len();
     for group_choice in g.group_choices.iter() {
       let error_count = self.errors.len();
+      let validated_keys = self.validated_keys.clone();
       self.visit_group_choice(group_choice)?;
       if self.errors.len() == error_count {
         // Disregard invalid group choice validation errors if one of the
@@ -1220,6 +1221,11 @@ impl<'a> Visitor<'a, '_, Error> for JSONValidator<'a> {
 
         return Ok(());
       }
+
+      // A failed alternative must not leave the keys it looked at marked as
+      // consumed: `{ a: int // }` would otherwise accept {"a": "x"} through the
+      // empty alternative and the closed-map check
+      self.validated_keys = validated_keys;
     }
 
     Ok(())
